@@ -10,6 +10,7 @@ import Drivers.NodeCell
 import Drivers.Codec
 import Drivers.Dist
 import Drivers.MeshOps
+import Drivers.Cavity
 
 /-! `refdrv <driver> [args]` : dispatch to a line-protocol driver. One match arm per driver, on one line. -/
 
@@ -25,6 +26,7 @@ def main (args : List String) : IO UInt32 := do
   | "codec" :: rest => Drivers.Codec.run rest
   | "dist" :: rest => Drivers.Dist.run rest
   | "meshops" :: rest => Drivers.MeshOps.run rest
+  | "cavity" :: rest => Drivers.Cavity.run rest
   | _ =>
     IO.eprintln s!"refdrv: unknown driver {args}"
     return 2
